@@ -154,3 +154,60 @@ func init() {
 		Outside: []string{"register / unsubscribe flows (no DUP flag in those packets)", "real-time slack"},
 	})
 }
+
+func c28Insts(full bool) []Inst {
+	var out []Inst
+	rcs := []int64{0, 1}
+	if full {
+		rcs = []int64{0, 1, 2}
+	}
+	for kind := int64(0); kind <= 8; kind++ {
+		for _, rc := range rcs {
+			out = append(out, Inst{Pkg: "client", Fn: "VH_C28_return", Args: []int64{kind, rc, 0, 0}, LoopBound: 2000})
+			out = append(out, Inst{Pkg: "client", Fn: "VH_C28_return", Args: []int64{kind, rc, 2, 0}, LoopBound: 2000})
+		}
+		for _, t := range snTypes {
+			if !full && (t == 0x00 || t == 0x01 || t == 0x02 || t == 0x1A || t == 0x1C || t == 0x03) {
+				continue
+			}
+			out = append(out, Inst{Pkg: "client", Fn: "VH_C28_return", Args: []int64{kind, 1, 1, t}, LoopBound: 2000})
+		}
+	}
+	return out
+}
+
+func init() {
+	reg(&Spec{
+		ID: "C28", Pkgs: []string{"client"}, LoopBound: 2000, ValidateN: 5,
+		Quick: func() []Inst { return c28Insts(false) }, Thor: func() []Inst { return c28Insts(true) },
+		Asserts: []string{"C28.call_returns_within_bound", "C28.close_returns", "C28.no_goroutine_left"},
+		Reach:   []string{"C28.waited"},
+		Bounds: map[string]string{
+			"calls":     "Connect, Register, Subscribe, Publish QoS 1 and 2, Unsubscribe, Ping, Sleep(2 s), Disconnect - one call per instance, on the real client with its real receive loop; RetryCount 0..1 (thorough 0..2); RetryDelay and ConnectTimeout symbolic in (0, 1 s); KeepAlive 0 (the keep-alive loop is C33's subject)",
+			"gateway":   "silent forever; one unsolicited packet of any type with a symbolic body (min..min+2 bytes), then silent; DISCONNECT",
+			"bound":     "ConnectTimeout x (RetryCount+1) for Connect; RetryDelay x (RetryCount+1) otherwise; plus the sleep duration and the library's fixed one-minute PINGRESP wait for Sleep; + 50 ms",
+			"shutdown":  "Close() afterwards; after all timers have fired no task spawned by the client is alive",
+		},
+		Outside: []string{"two API calls in flight at once", "real-time slack"},
+	})
+}
+
+func init() {
+	reg(&Spec{
+		ID: "C33", Pkgs: []string{"client"}, LoopBound: 2000, ValidateN: 4,
+		Quick: func() []Inst {
+			var out []Inst
+			for a := int64(0); a <= 1; a++ {
+				out = append(out, Inst{Pkg: "client", Fn: "VH_C33_active", Args: []int64{a}}, Inst{Pkg: "client", Fn: "VH_C33_sleep", Args: []int64{a}}, Inst{Pkg: "client", Fn: "VH_C33_disconnect", Args: []int64{a}})
+			}
+			return out
+		},
+		Asserts: []string{"C33.pings_while_active", "C33.ping_at_least_every_keepalive", "C33.sleep_takes_effect", "C33.no_keepalive_ping_while_asleep", "C33.sleep_not_failed_by_keepalive", "C33.disconnect_not_failed_by_keepalive", "C33.no_keepalive_ping_after_disconnect"},
+		Reach:   []string{"C33.active_done", "C33.slept", "C33.disconnected"},
+		Bounds: map[string]string{
+			"client":    "real Dial with KeepAlive = 2 s: real keepaliveLoop (time.Ticker model), receive loop, transactions; RetryCount 1, RetryDelay symbolic in (0, 1 s)",
+			"scenarios": "idle for 3.5 keep-alive periods with the gateway answering every ping / none; Sleep(3 s) or Disconnect at a symbolic instant within the first 2.5 periods, with keep-alive pings answered or left in flight",
+		},
+		Outside: []string{"other API calls racing with the keep-alive (Publish, Subscribe)", "pre-emptive interleavings inside Ping/Sleep", "real-time slack"},
+	})
+}
